@@ -22,6 +22,7 @@ package main
 
 import (
 	"go/ast"
+	"sort"
 	"strings"
 )
 
@@ -200,9 +201,18 @@ func (p *pkgInfo) collectRefs() {
 	p.callRefs = map[*ast.FuncDecl]int{}
 	p.valueRefs = map[*ast.FuncDecl]int{}
 	p.reachMemo = map[*ast.FuncDecl]int{}
-	byName := map[string][]*ast.FuncDecl{} // methods by name
-	for _, fd := range p.methods {
-		byName[fd.Name.Name] = append(byName[fd.Name.Name], fd)
+	p.looseMemo = map[*ast.FuncDecl]int{}
+	p.valueFrom = map[*ast.FuncDecl]map[*ast.FuncDecl]bool{}
+	p.collectTypes()
+	byName := p.byMethodName
+	valueRef := func(fd, from *ast.FuncDecl) {
+		p.valueRefs[fd]++
+		if from != nil {
+			if p.valueFrom[fd] == nil {
+				p.valueFrom[fd] = map[*ast.FuncDecl]bool{}
+			}
+			p.valueFrom[fd][from] = true
+		}
 	}
 	for _, f := range p.files {
 		imports := p.importNames(f)
@@ -268,12 +278,20 @@ func (p *pkgInfo) collectRefs() {
 					}
 				case *ast.SelectorExpr:
 					if id, ok := fn.X.(*ast.Ident); ok {
+						var fd *ast.FuncDecl
 						if t, ok := paramType(id.Name); ok {
-							if fd := p.methods[strings.TrimPrefix(t, "*")+"."+fn.Sel.Name]; fd != nil {
-								handled[fn.Sel] = true
-								if fd != enclosing() {
-									p.callRefs[fd]++
-								}
+							fd = p.methods[strings.TrimPrefix(t, "*")+"."+fn.Sel.Name]
+						} else if !(id.Obj == nil && imports[id.Name]) {
+							// a local variable: the method of that name if the package has exactly one
+							// (what fnCtx.callee resolves; anything else stays a value reference)
+							if l := byName[fn.Sel.Name]; len(l) == 1 {
+								fd = l[0]
+							}
+						}
+						if fd != nil {
+							handled[fn.Sel] = true
+							if fd != enclosing() {
+								p.callRefs[fd]++
 							}
 						}
 					}
@@ -286,7 +304,7 @@ func (p *pkgInfo) collectRefs() {
 					}
 					for _, fd := range byName[x.Sel.Name] {
 						if fd != enclosing() {
-							p.valueRefs[fd]++
+							valueRef(fd, enclosing())
 						}
 					}
 				}
@@ -295,7 +313,7 @@ func (p *pkgInfo) collectRefs() {
 					break
 				}
 				if fd := p.funcs[x.Name]; fd != nil && (x.Obj == nil || x.Obj.Kind == ast.Fun) && fd != enclosing() {
-					p.valueRefs[fd]++
+					valueRef(fd, enclosing())
 				}
 			}
 			return true
@@ -376,7 +394,171 @@ func (c *fnCtx) findOptVars(n ast.Node) {
 // ---------------------------------------------------------------------------------------
 // resolving and binding a call
 
-// callee: the same-package function / method a call names, and the receiver expression
+// collectTypes: the types of the package, the package-typed fields of its structs, the types
+// the *Options(..) functions return, methods by name
+func (p *pkgInfo) collectTypes() {
+	p.typeNames = map[string]bool{}
+	p.fieldTypes = map[string]string{}
+	p.optTypes = map[string]bool{}
+	p.byMethodName = map[string][]*ast.FuncDecl{}
+	p.pathOf = map[*ast.File]string{}
+	for path, f := range p.files {
+		p.pathOf[f] = path
+		ast.Inspect(f, func(n ast.Node) bool {
+			if ts, ok := n.(*ast.TypeSpec); ok {
+				p.typeNames[ts.Name.Name] = true
+			}
+			return true
+		})
+	}
+	for _, f := range p.files {
+		ast.Inspect(f, func(n ast.Node) bool {
+			ts, ok := n.(*ast.TypeSpec)
+			if !ok {
+				return true
+			}
+			if st, ok := ts.Type.(*ast.StructType); ok {
+				for _, fl := range st.Fields.List {
+					if t := p.pkgType(fl.Type); t != "" {
+						for _, nm := range fl.Names {
+							p.fieldTypes[ts.Name.Name+"."+nm.Name] = t
+						}
+					}
+				}
+			}
+			return true
+		})
+	}
+	for name, fd := range p.funcs {
+		if reOptions.MatchString(name) && fd.Type.Results != nil && len(fd.Type.Results.List) == 1 {
+			if t := p.pkgType(fd.Type.Results.List[0].Type); t != "" {
+				p.optTypes[t] = true
+			}
+		}
+	}
+	var keys []string
+	for k := range p.methods {
+		keys = append(keys, k)
+	}
+	sort.Strings(keys)
+	for _, k := range keys {
+		fd := p.methods[k]
+		p.byMethodName[fd.Name.Name] = append(p.byMethodName[fd.Name.Name], fd)
+	}
+}
+
+// pkgType: T for a type expression T / *T naming a type of the package, else ""
+func (p *pkgInfo) pkgType(e ast.Expr) string {
+	if st, ok := e.(*ast.StarExpr); ok {
+		e = st.X
+	}
+	if id, ok := e.(*ast.Ident); ok && p.typeNames[id.Name] {
+		return id.Name
+	}
+	return ""
+}
+
+func (p *pkgInfo) pkgTypeStr(t string) string {
+	t = strings.TrimPrefix(t, "*")
+	if p.typeNames[t] {
+		return t
+	}
+	return ""
+}
+
+// typeOf: the package type an expression holds, as far as the syntax tells ("" = unknown):
+// parameters / receivers by declaration, locals by their initialiser, fields by the struct
+func (c *fnCtx) typeOf(e ast.Expr) string {
+	switch x := e.(type) {
+	case *ast.Ident:
+		if t, ok := c.localTypes[x.Name]; ok {
+			return t
+		}
+		if t, ok := c.params[x.Name]; ok {
+			return c.pkg.pkgTypeStr(t)
+		}
+	case *ast.ParenExpr:
+		return c.typeOf(x.X)
+	case *ast.StarExpr:
+		return c.typeOf(x.X)
+	case *ast.UnaryExpr:
+		return c.typeOf(x.X)
+	case *ast.CompositeLit:
+		if x.Type != nil {
+			return c.pkg.pkgType(x.Type)
+		}
+	case *ast.SelectorExpr:
+		if t := c.typeOf(x.X); t != "" {
+			return c.pkg.fieldTypes[t+"."+x.Sel.Name]
+		}
+	case *ast.CallExpr:
+		if id, ok := x.Fun.(*ast.Ident); ok && (id.Obj == nil || id.Obj.Kind == ast.Fun) {
+			if fd := c.pkg.funcs[id.Name]; fd != nil && fd.Type.Results != nil && len(fd.Type.Results.List) == 1 {
+				return c.pkg.pkgType(fd.Type.Results.List[0].Type)
+			}
+		}
+	}
+	return ""
+}
+
+func (c *fnCtx) setLocal(name, t string) {
+	if name == "_" || t == "" {
+		return
+	}
+	if c.localTypes == nil {
+		c.localTypes = map[string]string{}
+	}
+	c.localTypes[name] = t
+	if c.pkg.optTypes[t] {
+		c.optVars[name] = true
+		c.root.usesOptions = true
+	}
+}
+
+// scanLocals: x := <expr of a package type>, var x T  (anywhere in n, in source order)
+func (c *fnCtx) scanLocals(n ast.Node) {
+	ast.Inspect(n, func(m ast.Node) bool {
+		switch x := m.(type) {
+		case *ast.AssignStmt:
+			if len(x.Lhs) == len(x.Rhs) {
+				for i, l := range x.Lhs {
+					if id, ok := l.(*ast.Ident); ok {
+						c.setLocal(id.Name, c.typeOf(x.Rhs[i]))
+					}
+				}
+			}
+		case *ast.ValueSpec:
+			for i, nm := range x.Names {
+				if x.Type != nil {
+					c.setLocal(nm.Name, c.pkg.pkgType(x.Type))
+				} else if i < len(x.Values) {
+					c.setLocal(nm.Name, c.typeOf(x.Values[i]))
+				}
+			}
+		}
+		return true
+	})
+}
+
+// optField: e is <options value>.<function-typed field>
+func (c *fnCtx) optField(e ast.Expr) (string, bool) {
+	sel, ok := e.(*ast.SelectorExpr)
+	if !ok || !c.pkg.optFuncs[sel.Sel.Name] {
+		return "", false
+	}
+	if id, ok := sel.X.(*ast.Ident); ok && c.optVars[id.Name] {
+		return sel.Sel.Name, true
+	}
+	if t := c.typeOf(sel.X); t != "" && c.pkg.optTypes[t] {
+		c.root.usesOptions = true
+		return sel.Sel.Name, true
+	}
+	return "", false
+}
+
+// callee: the same-package function / method a call names, and the receiver expression.
+// Methods: by the receiver's type where the syntax tells it (parameter, typed local, field);
+// a local variable of unknown type: the method of that name if the package has exactly one.
 func (c *fnCtx) callee(call *ast.CallExpr) (*ast.FuncDecl, ast.Expr) {
 	switch f := call.Fun.(type) {
 	case *ast.Ident:
@@ -390,15 +572,90 @@ func (c *fnCtx) callee(call *ast.CallExpr) (*ast.FuncDecl, ast.Expr) {
 			return fd, nil
 		}
 	case *ast.SelectorExpr:
+		if ok, _ := c.handlerCall(call); ok {
+			return nil, nil // the wrapped handler (per-framework table)
+		}
+		if t := c.typeOf(f.X); t != "" {
+			if fd := c.pkg.methods[t+"."+f.Sel.Name]; fd != nil && fd.Body != nil {
+				return fd, f.X
+			}
+			return nil, nil
+		}
 		if id, ok := f.X.(*ast.Ident); ok {
-			if t, ok := c.params[id.Name]; ok {
-				if fd := c.pkg.methods[strings.TrimPrefix(t, "*")+"."+f.Sel.Name]; fd != nil && fd.Body != nil {
-					return fd, f.X
-				}
+			if _, isParam := c.params[id.Name]; isParam {
+				return nil, nil // a parameter of a type of another package
+			}
+			if id.Obj == nil {
+				return nil, nil // a package name (or a package-level variable)
+			}
+			if l := c.pkg.byMethodName[f.Sel.Name]; len(l) == 1 && l[0].Body != nil {
+				return l[0], f.X
 			}
 		}
 	}
 	return nil, nil
+}
+
+// unresolvedHelper: a method call that callee() cannot tie to a declaration although the
+// package has methods of that name that touch a modelled construct: not inlinable, an Unknown
+func (c *fnCtx) unresolvedHelper(call *ast.CallExpr) bool {
+	f, ok := call.Fun.(*ast.SelectorExpr)
+	if !ok {
+		return false
+	}
+	if fd, _ := c.callee(call); fd != nil {
+		return false
+	}
+	if ok, _ := c.handlerCall(call); ok {
+		return false
+	}
+	if _, ok := c.optField(f); ok {
+		return false
+	}
+	if t := c.typeOf(f.X); t != "" {
+		return false // typed: the package type has no such method
+	}
+	if id, ok := f.X.(*ast.Ident); ok {
+		if _, isParam := c.params[id.Name]; isParam || id.Obj == nil {
+			return false
+		}
+	}
+	for _, fd := range c.pkg.byMethodName[f.Sel.Name] {
+		if c.pkg.looseRelevant(fd) {
+			return true
+		}
+	}
+	return false
+}
+
+// looseRelevant: fd's body touches a modelled construct whatever it is called with
+func (p *pkgInfo) looseRelevant(fd *ast.FuncDecl) bool {
+	switch p.looseMemo[fd] {
+	case 1, 2:
+		return false
+	case 3:
+		return true
+	}
+	p.looseMemo[fd] = 1
+	c := p.declCtx(fd)
+	ps, _ := fieldNames(p, fd.Type.Params)
+	rs, _ := fieldNames(p, fd.Recv)
+	for _, q := range append(rs, ps...) {
+		if strings.Contains(q.typ, "SentinelEntry") {
+			c.entryVar[q.name] = true
+		}
+		if t := p.pkgTypeStr(q.typ); t != "" && p.optTypes[t] {
+			c.optVars[q.name] = true
+		}
+	}
+	c.scanLocals(fd.Body)
+	f := c.scan0(fd.Body, false)
+	r := f.entryUse || f.handler || f.fallback || f.entryCall || f.trace || f.helper || c.mentionsReject(fd.Body, false)
+	p.looseMemo[fd] = 2
+	if r {
+		p.looseMemo[fd] = 3
+	}
+	return r
 }
 
 type namedType struct{ name, typ string }
@@ -432,8 +689,14 @@ func (c *fnCtx) bind(fd *ast.FuncDecl, call *ast.CallExpr, recv ast.Expr, mode i
 		guards: append([]string(nil), c.guards...), inBlock: c.inBlock, knownNil: c.knownNil,
 		root: c.root, mode: mode, fd: fd, retTmp: map[int]int{}}
 	one := func(p namedType, arg ast.Expr) {
+		if p.name == "_" {
+			return
+		}
+		if t := c.pkg.pkgTypeStr(p.typ); t != "" {
+			ch.setLocal(p.name, t) // the helper's own declaration: the options value, a struct of the package
+		}
 		id, ok := arg.(*ast.Ident)
-		if !ok || p.name == "_" {
+		if !ok {
 			return
 		}
 		switch {
@@ -517,6 +780,7 @@ func (c *fnCtx) inline(call *ast.CallExpr, fd *ast.FuncDecl, recv ast.Expr, mode
 	}
 	ch := c.bind(fd, call, recv, mode)
 	ch.findOptVars(fd.Body)
+	ch.scanLocals(fd.Body)
 	if n := len(fd.Body.List); n > 0 {
 		ch.lastStmt = fd.Body.List[n-1]
 	}
@@ -536,11 +800,11 @@ func (c *fnCtx) inline(call *ast.CallExpr, fd *ast.FuncDecl, recv ast.Expr, mode
 func (c *fnCtx) inlineAssign(s ast.Stmt, lhs []ast.Expr, call *ast.CallExpr, fd *ast.FuncDecl, recv ast.Expr) *Node {
 	body, ch := c.inline(call, fd, recv, modeNonTail)
 	if body == nil {
-		return c.unknown(s)
+		return c.notInlined(s)
 	}
 	rb, ok := ch.results()
 	if !ok || !c.bindTargets(lhs, rb) {
-		return seq([]*Node{body, c.unknown(s)})
+		return seq([]*Node{body, c.notInlined(s)})
 	}
 	return body
 }
@@ -552,10 +816,10 @@ func (c *fnCtx) inlineCallStmt(s ast.Stmt, call *ast.CallExpr, fd *ast.FuncDecl,
 	}
 	body, ch := c.inline(call, fd, recv, modeNonTail)
 	if body == nil {
-		return c.unknown(s)
+		return c.notInlined(s)
 	}
 	if _, ok := ch.results(); !ok {
-		return seq([]*Node{body, c.unknown(s)})
+		return seq([]*Node{body, c.notInlined(s)})
 	}
 	return body
 }
@@ -565,7 +829,7 @@ func (c *fnCtx) inlineCallStmt(s ast.Stmt, call *ast.CallExpr, fd *ast.FuncDecl,
 func (c *fnCtx) inlineTail(s ast.Stmt, call *ast.CallExpr, fd *ast.FuncDecl, recv ast.Expr, isReturn bool) *Node {
 	body, _ := c.inline(call, fd, recv, modeTail)
 	if body == nil {
-		return c.unknown(s)
+		return c.notInlined(s)
 	}
 	if !isReturn || terminates(body) {
 		return body
@@ -693,11 +957,11 @@ func (c *fnCtx) calleeReturn(x *ast.ReturnStmt) *Node {
 				if fd, recv, ok := c.helperCall(call); ok {
 					body, ch := c.inline(call, fd, recv, modeNonTail)
 					if body == nil {
-						return done(c.unknown(x))
+						return done(c.notInlined(x))
 					}
 					rb, ok := ch.results()
 					if !ok || len(rb) != nres {
-						return done(body, c.unknown(x))
+						return done(body, c.notInlined(x))
 					}
 					copy(site, rb)
 					return done(body)
